@@ -8,7 +8,7 @@ import z3
 
 from .base import Family, register
 from ..sym.core import SInt, cur
-from ..sym.arr import SymArr, I
+from ..sym.arr import SymArr, I, dim_term
 
 
 class Recorder:
@@ -260,3 +260,134 @@ class Rl2dReductions(Family):
             out = mod.rlra_concatenate([RunLengthRaggedArray(Rec2("I1", log), Rec2("V1", log)), RunLengthRaggedArray(Rec2("I2", log), Rec2("V2", log))])
             ctx.prove("post.concatenation joins boundaries with boundaries and values with values, in operand order",
                       z3.BoolVal(out._indices == ("concatenate", (["I1", "I2"],), ()) or out._indices[0] == "concatenate"))
+
+
+@register
+class Rl2dJoinRuns(Family):
+    """RunLength2dArray.join_runs(indices, values) on two ragged arrays of one geometry with non-empty rows: a cell is kept iff it starts its row
+    or its value differs (numpy !=) from the previous cell's; indices and values are filtered with the SAME mask into the SAME new geometry
+    (lock-step), row r keeping exactly its kept cells in order; the first cell of every row survives, so rows stay non-empty."""
+    name = "RunLength2dArray.join_runs"
+    qualname = "npstructures.runlengtharray:RunLength2dArray.join_runs"
+    serves = ["C17"]
+    timeout_ms = 30000
+    assumed = ["numpy boolean-mask gather (flatnonzero rank / position functions)", "numpy fancy assignment (witness form)",
+               "numpy.add.reduceat accumulates booleans as integers (audited)", "numpy != as an uninterpreted relation on elements",
+               "numpy.cumsum = prefix sums (RaggedShape.__init__, executed here)"]
+
+    def extra_functions(self):
+        return ["util.unsafe_extend_left", "RaggedArray._reduce", "RaggedArray.sum", "RaggedArray.__init__", "RaggedShape.__init__"]
+
+    def _setup(self, ctx):
+        from npstructures import RaggedArray
+        from .ragged import sym_ragged
+        from .reduce import telescoping
+        g = sym_ragged(ctx, kind="elem")
+        ctx.assume_forall("rows are non-empty (C17's domain)", lambda r_: z3.Implies(z3.And(0 <= r_, r_ < g.n), g.L(r_) >= 1))
+        ctx.assume(g.n >= 1)
+        ID = SymArr.symbolic("ind", g.S(g.n), "int", np.int64, assume_len=False)
+        inds = RaggedArray(ID, g.obj)
+        telescoping(ctx, g, g.ra._shape.lengths)
+        ctx.add_index(g.n, g.n - 1)
+        ctx.ghost["g"], ctx.ghost["ID"] = g, ID
+        return g, ID, inds
+
+    def late_lemmas(self, ctx, kind, exc):
+        from .structural import _subset_lemmas
+        from ..sym.theory import fold_fn
+        g = ctx.ghost["g"]
+        if isinstance(exc, ValueError) and ctx.ghost.get("prefix_sums") and ctx.ghost.get("nonzero_facts"):
+            nz = ctx.ghost["nonzero_facts"][-1]
+            mk = ctx.ghost.get("mask_arr")
+            if mk is None:
+                return
+            fold = fold_fn("add", mk)
+            ps2 = ctx.ghost["prefix_sums"][-1]["ps"]
+            _subset_lemmas(ctx, g, nz.mask, nz, fold, ps2)
+            ctx.prove_then_assume("late.lemma: the per-row counts add up to the number of kept cells", ps2(g.n) == nz.cnt, pool=[g.n, g.S(g.n)], kind="lemma")
+
+    def run(self, ctx, kind):
+        from npstructures import RaggedArray
+        from npstructures.runlengtharray import RunLength2dArray
+        import npstructures.raggedarray as ramod
+        from .structural import _subset_lemmas
+        from ..sym.theory import fold_fn
+        from ..sym.arr import apply_binary
+        g, ID, inds = self._setup(ctx)
+        n, S, L, V, Ix = g.n, g.S, g.L, g.D.fn, ID.fn
+        # remember the mask array handed to the row sum (for the late lemmas of the size-check path)
+        real_init = ramod.RaggedArray.__init__
+
+        def spy_init(self_, data, shape=None, *a, **k):
+            if isinstance(data, SymArr) and data.kind == "bool":
+                cur().ghost["mask_arr"] = data
+            return real_init(self_, data, shape, *a, **k)
+        ramod.RaggedArray.__init__ = spy_init
+        try:
+            i2, v2 = RunLength2dArray.join_runs(inds, g.ra)
+        finally:
+            ramod.RaggedArray.__init__ = real_init
+        mk = ctx.ghost["mask_arr"]
+        nz = ctx.ghost["nonzero_facts"][-1]
+        rk, pos, cnt, M = nz.rk, nz.pos, nz.cnt, nz.mask
+        fold = fold_fn("add", mk)
+        ps2 = ctx.ghost["prefix_sums"][-1]["ps"]
+        _subset_lemmas(ctx, g, M, nz, fold, ps2)
+        NE = lambda x, y: apply_binary("not_equal", x, y)
+        sh = v2._shape
+        ctx.prove("post.lock-step: indices and values keep their number of rows", z3.And(I(i2._shape.n_rows) == n, I(sh.n_rows) == n))
+        VD, IDo = v2.ravel(), i2.ravel()
+        ctx.prove("post.as many cells as kept cells, in both arrays", z3.And(dim_term(VD.shape_[0]) == cnt, dim_term(IDo.shape_[0]) == cnt))
+        r = g.row()
+        ctx.add_index(r + 1)
+        base = [r, r + 1, S(r), S(r + 1), S(r) + 1, n, n - 1]
+        j = z3.Int("j")
+        ctx.skolem(z3.And(S(r) <= j, j < S(r + 1)))
+        sc = ctx.ghost["scatters"][-1]
+        ctx.prove_then_assume("post.lemma: the mask keeps a cell iff it starts its row or differs from its predecessor",
+                              M(j) == z3.Or(j == S(r), NE(V(j - 1), V(j))), pool=base + [j, j - 1, j + 1, sc["wit"](j), S(sc["wit"](j)), sc["wit"](j) + 1], live=[r])
+        ctx.prove("post.the first cell of every row is kept", M(S(r)), pool=base + [sc["wit"](S(r))], live=[r])
+        ctx.prove_then_assume("post.row r starts at the rank of its first cell and has as many cells as it keeps, in both arrays",
+                              z3.And(sh.starts.get(r) == rk(S(r)), sh.lengths.get(r) == rk(S(r + 1)) - rk(S(r)),
+                                     i2._shape.starts.get(r) == rk(S(r)), i2._shape.lengths.get(r) == rk(S(r + 1)) - rk(S(r)),
+                                     rk(S(r + 1)) - rk(S(r)) >= 1), pool=base + [sc["wit"](S(r))], live=[r])
+        c2 = z3.Int("c2")
+        ctx.skolem(z3.And(0 <= c2, c2 < rk(S(r + 1)) - rk(S(r))))
+        t = rk(S(r)) + c2
+        p = pos(t)
+        pool = base + [c2, t, t + 1, p, p + 1, rk(p), cnt, S(n)]
+        ctx.prove("post.cell c' of result row r is kept cell number c' of source row r, for boundaries and values alike",
+                  z3.And(VD.get(t) == V(p), IDo.get(t) == Ix(p), S(r) <= p, p < S(r + 1), M(p)), pool=pool)
+        ctx.prove("post.order kept", z3.Implies(c2 + 1 < rk(S(r + 1)) - rk(S(r)), p < pos(t + 1)), pool=pool + [pos(t + 1)])
+        q = z3.Int("q")
+        ctx.skolem(z3.And(S(r) <= q, q < S(r + 1), M(q)))
+        ctx.prove("post.every kept cell of row r appears in result row r", z3.And(rk(S(r)) <= rk(q), rk(q) < rk(S(r + 1)), pos(rk(q)) == q),
+                  pool=base + [q, q + 1, rk(q), cnt, S(n)], live=[r])
+        ctx.prove("post.operands not modified", z3.BoolVal(g.D.buf.writes == 0 and ID.buf.writes == 0))
+
+    def concretise(self, kind, model, ghost):
+        return {"lengths": [2, 3, 1]}
+
+    def concrete(self, case):
+        from npstructures import RaggedArray
+        from npstructures.runlengtharray import RunLength2dArray
+        ls = case["lengths"]
+        tot = sum(ls)
+        for pattern in range(3):
+            vals = np.array([(i // (pattern + 1)) % 2 for i in range(tot)])
+            inds = np.arange(100, 100 + tot)
+            i2, v2 = RunLength2dArray.join_runs(RaggedArray(inds, ls), RaggedArray(vals, ls))
+            ei, ev, o = [], [], 0
+            for l in ls:
+                keep = [c for c in range(l) if c == 0 or vals[o + c] != vals[o + c - 1]]
+                ei.append([int(inds[o + c]) for c in keep])
+                ev.append([int(vals[o + c]) for c in keep])
+                o += l
+            if i2.tolist() != ei or v2.tolist() != ev:
+                return {"msg": f"join_runs on lengths {ls}, values {vals.tolist()}: {i2.tolist()} / {v2.tolist()}, expected {ei} / {ev}", "sig": "wrong:rl2d-join-runs"}
+
+    def bounded_cases(self, tier, seed):
+        import itertools
+        for k in range(1, 4):
+            for ls in itertools.product((1, 2, 3), repeat=k):
+                yield {"lengths": list(ls)}
